@@ -82,8 +82,9 @@ func siteName(id int) string {
 // schedBody is one thread body: it works on the shared pool and returns a description of
 // what it observed (its "result").
 type schedBody struct {
-	name string
-	run  func(st *immState) string
+	name  string
+	run   func(st *immState) string
+	focus bool // a forced-collision body: pairs of these are always enumerated in full
 }
 
 type schedScenario struct {
@@ -114,7 +115,7 @@ func schedBodies() (all []schedBody, firstCustom int) {
 		if strings.Contains(op.name, "B.NewValue") || strings.Contains(op.name, "Unmarshal(Bytes0)") || strings.Contains(op.name, "retained G") {
 			continue
 		}
-		out = append(out, schedBody{op.name, func(st *immState) string { return resultStr(op.run(st)) }})
+		out = append(out, schedBody{op.name, func(st *immState) string { return resultStr(op.run(st)) }, false})
 	}
 	firstCustom = len(out)
 	g := func(f func() string) (s string) {
@@ -127,7 +128,7 @@ func schedBodies() (all []schedBody, firstCustom int) {
 	}
 	ints := hashCollidingInts()
 	add := func(name string, f func(st *immState) string) {
-		out = append(out, schedBody{name, func(st *immState) string { return g(func() string { return f(st) }) }})
+		out = append(out, schedBody{name, func(st *immState) string { return g(func() string { return f(st) }) }, true})
 	}
 	add("c=S0.Copy(); c.Add(i3); c.Remove(i0); c.Values()", func(st *immState) string {
 		c := st.S[0].Copy()
@@ -208,14 +209,26 @@ func schedBodies() (all []schedBody, firstCustom int) {
 		}
 		return s + fmt.Sprint(len(c1))
 	})
-	add("retained conversion tuple->tuple applied to V1.b twice", func(st *immState) string {
-		cv := convert.GetConversionUnsafe(cty.Tuple([]cty.Type{cty.String, cty.Number}), cty.Tuple([]cty.Type{cty.String, cty.String}))
+	add("Conv0(V1.b): the retained tuple conversion", func(st *immState) string {
 		u, _ := st.V[1].Unmark()
-		a, err := cv(u.GetAttr("b"))
+		a, err := st.Conv[0](u.GetAttr("b"))
 		must(err)
-		b, err := cv(cty.TupleVal([]cty.Value{cty.StringVal("other"), cty.NumberIntVal(77)}))
+		return goStr(a)
+	})
+	add("Conv0((other,77)): the retained tuple conversion", func(st *immState) string {
+		b, err := st.Conv[0](cty.TupleVal([]cty.Value{cty.StringVal("other"), cty.NumberIntVal(77)}))
 		must(err)
-		return goStr(a) + goStr(b)
+		return goStr(b)
+	})
+	add("Conv1(map p,q): the retained map->object conversion", func(st *immState) string {
+		b, err := st.Conv[1](cty.MapVal(map[string]cty.Value{"k1": cty.StringVal("p"), "k2": cty.StringVal("q")}))
+		must(err)
+		return goStr(b)
+	})
+	add("Conv1(V4): the retained map->object conversion", func(st *immState) string {
+		b, err := st.Conv[1](st.V[4])
+		must(err)
+		return goStr(b)
 	})
 	add("Convert(V4,map(string)); Convert(V0,tuple)", func(st *immState) string {
 		a, err := convert.Convert(st.V[4], cty.Map(cty.String))
@@ -224,16 +237,32 @@ func schedBodies() (all []schedBody, firstCustom int) {
 		must(err)
 		return goStr(a) + goStr(b)
 	})
-	add("stdlib: formatdate, format, jsonencode, regex, sort", func(st *immState) string {
+	add("stdlib.FormatDate", func(st *immState) string {
 		a, err := stdlib.FormatDate(cty.StringVal("YYYY-MM-DD hh:mm"), cty.StringVal("2006-01-02T15:04:05-03:30"))
 		must(err)
-		b, err := stdlib.Format(cty.StringVal("%s|%05.1f|%v"), cty.StringVal("é"), st.V[5], st.V[0])
+		return goStr(a)
+	})
+	add("stdlib.FormatDate (other stamp)", func(st *immState) string {
+		a, err := stdlib.FormatDate(cty.StringVal("DD/MM/YY 'at' HH"), cty.StringVal("1999-12-31T23:59:59Z"))
 		must(err)
+		return goStr(a)
+	})
+	add("stdlib.Format(%s|%05.1f)", func(st *immState) string {
+		b, err := stdlib.Format(cty.StringVal("%s|%05.1f"), cty.StringVal("é"), st.V[5])
+		must(err)
+		return goStr(b)
+	})
+	add("stdlib.JSONEncode(V0) / JSONDecode", func(st *immState) string {
 		c, err := stdlib.JSONEncode(st.V[0])
 		must(err)
+		d, err := stdlib.JSONDecode(cty.StringVal("{\"a\":[1,true]}"))
+		must(err)
+		return goStr(c) + goStr(d)
+	})
+	add("stdlib.Regex", func(st *immState) string {
 		d, err := stdlib.Regex(cty.StringVal("(?P<x>[a-z]+)"), cty.StringVal("abc def"))
 		must(err)
-		return goStr(a) + goStr(b) + goStr(c) + goStr(d)
+		return goStr(d)
 	})
 	add("Path: GetAttrPath(a).IndexInt(0).GetAttr(b) built twice; P.Has", func(st *immState) string {
 		base := cty.GetAttrPath("a").IndexInt(0).GetAttr("x")
@@ -248,9 +277,9 @@ func schedBodies() (all []schedBody, firstCustom int) {
 		i.SetInt64(4)
 		return goStr(st.V[5]) + goStr(cty.PositiveInfinity) + new(big.Float).Set(f).String()
 	})
-	add("V0.Equals(V0); V1.RawEquals(V1); V2.Equals(V2); hash", func(st *immState) string {
+	add("V0.Equals(V0); V4.RawEquals(V4); hash of V1.b", func(st *immState) string {
 		u, _ := st.V[1].UnmarkDeep()
-		return goStr(st.V[0].Equals(st.V[0])) + fmt.Sprint(st.V[1].RawEquals(st.V[1])) + goStr(st.V[2].Equals(st.V[2])) + fmt.Sprint(u.Hash() == u.Hash())
+		return goStr(st.V[0].Equals(st.V[0])) + fmt.Sprint(st.V[4].RawEquals(st.V[4])) + fmt.Sprint(u.GetAttr("b").Hash() == u.GetAttr("b").Hash())
 	})
 	return out, firstCustom
 }
@@ -585,7 +614,7 @@ func runC20S(c *Ctx) {
 	// shared memory or synchronises - exactly what phase 1 decides for every body (a write is
 	// a violation there), and what the cheap end-to-end test below re-checks per scenario: a
 	// scenario with a dirty or synchronising body is always explored in full.
-	fullLimit, bound2Limit := 1300, 140
+	fullLimit, bound2Limit, focusLimit := 1300, 140, 4000
 	globalsEvery := 16
 	perScenario := int64(60000)
 	if c.Thorough {
@@ -594,6 +623,7 @@ func runC20S(c *Ctx) {
 		perScenario = 2000000
 	}
 	c.Note("full_enumeration_when_statement_boundaries_at_most", fmtInt(fullLimit))
+	c.Note("full_enumeration_of_forced_collision_pairs_when_statement_boundaries_at_most", fmtInt(focusLimit))
 	c.Note("preemption_bound_2_when_statement_boundaries_at_most", fmtInt(bound2Limit))
 	c.Note("globals_fingerprinted", fmt.Sprint(globalsAvailable))
 	// phase 1: solo, stepwise (one unit per body)
@@ -640,8 +670,11 @@ func runC20S(c *Ctx) {
 		sc := sc
 		c.Unit(func(u *U) {
 			solo := make([]string, len(sc.bodies))
-			total, special := 0, false
+			total, special, focus := 0, false, true
 			for i, b := range sc.bodies {
+				if !b.focus {
+					focus = false
+				}
 				r, steps, syncOps, dirty := soloCounted(b)
 				solo[i] = r
 				total += steps
@@ -659,6 +692,8 @@ func runC20S(c *Ctx) {
 			case total <= bound2Limit && len(sc.bodies) == 2:
 				bound = 2
 			case total <= fullLimit && (len(sc.bodies) == 2 || total <= fullLimit/3):
+				bound = 1
+			case focus && len(sc.bodies) == 2 && total <= focusLimit:
 				bound = 1
 			}
 			complete := exploreSchedules(u, sc, solo, fp0, bound, perScenario, st)
